@@ -133,11 +133,13 @@ def param_expect(ctx, p):
     d = p.get('direction') or 'in'
     out = d in ('out', 'inout')
     an = p.get('allow-none') == '1'
+    modern = p.get('nullable') is not None or p.get('optional') is not None
     full, cont = transfer_bits(p.get('transfer-ownership'))
     e = {'name': p.get('name'), 'in': int(d in ('in', 'inout')), 'out': int(out),
          'caller_allocates': int(d == 'out' and p.get('caller-allocates') == '1'),
-         'nullable': int(p.get('nullable') == '1' or (an and not out)),
-         'optional': int(p.get('optional') == '1' or (an and out)),
+         # allow-none is the deprecated spelling: it only decides when the GIR states neither nullable nor optional
+         'nullable': int(p.get('nullable') == '1' or (an and not out and not modern)),
+         'optional': int(p.get('optional') == '1' or (an and out and not modern)),
          'transfer_ownership': full, 'transfer_container_ownership': cont, 'skip': flag(p, 'skip'),
          'scope': p.get('scope') or 'invalid',
          'closure': int(p.get('closure')) if p.get('closure') is not None else -1,
